@@ -7,6 +7,7 @@ import (
 	"runtime/debug"
 	"sort"
 	"strings"
+	"sync"
 	"time"
 
 	"cloud.google.com/go/bigtable"
@@ -38,6 +39,47 @@ type Driver struct {
 	coins    []bool
 	ncoin    int
 	Overrun  bool
+	tmu      sync.Mutex
+	tracked  []bttest.Rows
+}
+
+// trackStorage remembers every Rows the storage hands to the service. The service never closes the rows of a
+// table that is deleted (each leveldb instance keeps 4 MiB and several goroutines alive), so a worker that runs
+// 10^5 executions would grow without bound: Driver.Close releases them all. Nothing else changes.
+type trackStorage struct {
+	bttest.Storage
+	d *Driver
+}
+
+func (t trackStorage) track(r bttest.Rows) bttest.Rows {
+	t.d.tmu.Lock()
+	t.d.tracked = append(t.d.tracked, r)
+	t.d.tmu.Unlock()
+	return r
+}
+func (t trackStorage) Create(tb *btapb.Table) bttest.Rows { return t.track(t.Storage.Create(tb)) }
+func (t trackStorage) Open(tb *btapb.Table) bttest.Rows   { return t.track(t.Storage.Open(tb)) }
+
+// DeleteTableMeta forwards the optional storage method the service looks for with a type assertion.
+func (t trackStorage) DeleteTableMeta(tb *btapb.Table) {
+	if d, ok := t.Storage.(interface{ DeleteTableMeta(tbl *btapb.Table) }); ok {
+		d.DeleteTableMeta(tb)
+	}
+}
+
+// releaseTracked closes the rows of every table this service ever had (a second Close of a leveldb instance
+// fails with "closed", which is ignored).
+func (d *Driver) releaseTracked() {
+	d.tmu.Lock()
+	rows := d.tracked
+	d.tracked = nil
+	d.tmu.Unlock()
+	for _, r := range rows {
+		func() {
+			defer func() { _ = recover() }()
+			r.Close()
+		}()
+	}
 }
 
 func NewStorage(engine, dir string) bttest.Storage {
@@ -59,7 +101,7 @@ func NewDriver(engine, dir string) *Driver {
 // NewDriverOn builds the service on the given (possibly wrapped) storage.
 func NewDriverOn(engine, dir string, st bttest.Storage) *Driver {
 	d := &Driver{Engine: engine, Dir: dir, Clock: 1_000_000}
-	d.S = bttest.NewVerifServer(st, func() bigtable.Timestamp {
+	d.S = bttest.NewVerifServer(trackStorage{Storage: st, d: d}, func() bigtable.Timestamp {
 		yield("clock")
 		return bigtable.Timestamp(d.Clock)
 	})
@@ -76,7 +118,7 @@ func NewDriverReal(engine, dir string) (*Driver, error) {
 	vchan.SeqBlock = func() { time.Sleep(20 * time.Millisecond) }
 	d := &Driver{Engine: engine, Dir: dir, Clock: 1_000_000}
 	srv, err := bttest.NewServerWithOptions("127.0.0.1:0", bttest.Options{
-		Storage: NewStorage(engine, dir),
+		Storage: trackStorage{Storage: NewStorage(engine, dir), d: d},
 		Clock:   func() bigtable.Timestamp { return bigtable.Timestamp(d.Clock) },
 	})
 	if err != nil {
@@ -96,6 +138,7 @@ func (d *Driver) Close() {
 			d.real.Close()
 		}()
 		d.real, d.S = nil, nil
+		d.releaseTracked()
 		return
 	}
 	func() {
@@ -103,6 +146,7 @@ func (d *Driver) Close() {
 		d.S.VerifClose()
 	}()
 	d.S = nil
+	d.releaseTracked()
 }
 
 //go:norace
